@@ -21,6 +21,7 @@ def _load():
 def refresh_mir():
     for c in CRATES:
         mirdump.dump(c)
+    _PROGS.clear()          # anything loaded before (e.g. for boundary-constant mining) is stale now
 
 
 def _work(job):
